@@ -6,7 +6,7 @@ use std::sync::{Arc, Barrier, Mutex};
 use std::time::{Duration, Instant};
 
 #[derive(Default)]
-struct Capture { got: Mutex<Vec<(String, Vec<u8>, u16)>> }
+struct Capture { got: Mutex<Vec<(String, Vec<u8>, u16)>>, reports_closed: std::sync::atomic::AtomicBool }
 /// what every sink does when it is handed a notification (sequential cases only): `R:<b>` makes
 /// it remove peer b from the registry, from inside the broadcast that is delivering to it
 type OnNotify = Box<dyn Fn() + Send>;
@@ -18,7 +18,9 @@ impl PeerSink for Capture {
         if let Some(cb) = ON_NOTIFY.lock().unwrap().as_ref() { cb(); }
         Ok(())
     }
-    fn is_connected(&self) -> bool { true }
+    // a registered peer is a present peer whatever its transport says about itself: a broadcast
+    // still addresses it (and reports the result of the send)
+    fn is_connected(&self) -> bool { !self.reports_closed.load(std::sync::atomic::Ordering::SeqCst) }
 }
 
 /// A key whose conversion to `String` (which `alias` performs on the caller's side of the
@@ -100,7 +102,7 @@ fn run_conc(f: &std::collections::HashMap<String, String>) -> String {
     let ids: Vec<u64> = f["ids"].split('.').map(p).collect();
     let keys: Vec<u64> = f["keys"].split('.').map(p).collect();
     let reg = PeerRegistry::new();
-    let sinks: Vec<Arc<Capture>> = ids.iter().map(|_| Arc::new(Capture::default())).collect();
+    let sinks: Vec<Arc<Capture>> = ids.iter().map(|id| { let c = Capture::default(); c.reports_closed.store(id % 3 == 2, std::sync::atomic::Ordering::SeqCst); Arc::new(c) }).collect();
     if f["pre"] != "-" { for (j, op) in f["pre"].split(';').enumerate() { let (_, b) = conc_op(&reg, &sinks, &ids, op, &format!("pre/{j}")); drop(b); } }
     let init = observe_state(&reg, &ids, &keys, "u");
     let threads: Vec<Vec<String>> = f["th"].split('!').map(|t| if t == "-" { vec![] } else { t.split(';').map(|s| s.to_string()).collect() }).collect();
@@ -156,7 +158,7 @@ fn run_case(line: &str) -> String {
     let ops: Vec<String> = if f["ops"] == "-" { vec![] } else { f["ops"].split(';').map(|s| s.to_string()).collect() };
     let r = guard(move || {
         let reg = PeerRegistry::new();
-        let sinks: Vec<Arc<Capture>> = ids.iter().map(|_| Arc::new(Capture::default())).collect();
+        let sinks: Vec<Arc<Capture>> = ids.iter().map(|id| { let c = Capture::default(); c.reports_closed.store(id % 3 == 2, std::sync::atomic::Ordering::SeqCst); Arc::new(c) }).collect();
         let sink_of = |id: u64| -> Arc<Capture> { sinks[ids.iter().position(|x| *x == id).unwrap()].clone() };
         let mut outs = Vec::new();
         let mut bcount = 0u32;
@@ -344,6 +346,17 @@ fn gen_cases(seed: u64, thorough: bool) -> Vec<String> {
         if rng.chance(1, 2) { ths.push((0..rng.range(1, 4)).map(|_| match rng.below(5) { 0 => format!("Y:{:x}", rng.below(nk)), 1 => "A:0".to_string(), 2 => "F:0".to_string(), 3 => "G:0".to_string(), _ => "N".to_string() }).collect::<Vec<_>>().join(";")); }
         let keys: Vec<u64> = (0..nk).collect();
         cases.push(format!("k=conc ids=0.1 keys={} sync=1 pre={} th={}", keys.iter().map(h_).collect::<Vec<_>>().join("."), pre, ths.join("!")));
+    }
+    // get_by against a key that always addresses a present peer: the key is moved to the other peer
+    // and its previous owner removed while readers look it up (never "nobody")
+    for ci in 0..2 * nconc {
+        let (a, b) = if ci % 2 == 0 { (0, 1) } else { (1, 0) };
+        let t1 = format!("L:{b}:0;X:{a};I:{a};L:{a}:0");
+        let rd = "Y:0;Y:0;Y:0;Y:0";
+        let mut ths = vec![t1, rd.to_string()];
+        if ci % 3 != 0 { ths.push(rd.to_string()); }
+        if ci % 4 == 0 { ths.push(rd.to_string()); }
+        cases.push(format!("k=conc ids=0.1 keys=0 sync={} pre=I:0;I:1;L:{a}:0 th={}", ci % 2, ths.join("!")));
     }
     for ci in 0..nconc {
         let ni = rng.range(1, 3); let nk = rng.range(1, 3);
